@@ -941,6 +941,53 @@ def kf1_witness():
                 LockedHierarchicalMachine=run(ext.LockedHierarchicalMachine))
 
 
+
+RAW_VALUES = [True, False, 1, 0, 2, -1, 1.0, 0.0, 0.5, 'busy', '', None, [], [0], (), (1,), {}, {'a': 1}]
+
+
+def raw_condition_values():
+    """conditions / unless callbacks that return something that is not a bool (Condition.check compares the returned
+    value with ==, it does not convert it): finite sweep over RAW_VALUES x {conditions, unless} x {plain function,
+    coroutine function on the asyncio classes} x send_event on all 12 classes; (result, state) must be Machine's."""
+    rows = {}
+    for label, cls, fl in _classes():
+        if not label.endswith('/name'):
+            continue
+        is_async = bool(fl[3])
+        for kind in ('conditions', 'unless'):
+            for vi, val in enumerate(RAW_VALUES):
+                for send in (False, True):
+                    for coro in ((False, True) if is_async else (False,)):
+                        runner = Runner(is_async)
+                        try:
+                            if coro:
+                                async def cb(*a, **k):
+                                    return val
+                            else:
+                                def cb(*a, **k):
+                                    return val
+                            kw = dict(states=['A', 'B', 'C'], initial='A', auto_transitions=False, send_event=send,
+                                      transitions=[dict(trigger='go', source='A', dest='B', **{kind: [cb]}),
+                                                   dict(trigger='go', source='A', dest='C')])
+                            kw.update(class_kwargs(fl, BACKENDS[0] if BACKENDS else None))
+                            m = cls(**kw)
+                            try:
+                                r = runner.call(lambda: m.go())
+                                res = [0, bool(r)]
+                            except BaseException as ex:  # noqa
+                                res = [1, classify_exc(ex)]
+                            rows[(label, kind, vi, send, coro)] = (res, str(m.state))
+                        finally:
+                            runner.close()
+    bad = []
+    for (label, kind, vi, send, coro), got in sorted(rows.items(), key=repr):
+        want = rows[('Machine/name', kind, vi, send, False)]
+        if got != want:
+            bad.append(dict(cls=label, kind=kind, value=repr(RAW_VALUES[vi]), send_event=send, coroutine=coro,
+                            got=got, Machine=want))
+    return len(rows), bad
+
+
 def extra_checks(tier, seed):
     res = []
     # 1. the reflected table: 12 classes, names resolve, by-name class IS the factory class
@@ -1006,6 +1053,11 @@ def extra_checks(tier, seed):
                           'Machine; inside it the 4 non-nested sync classes still equal Machine'),
                 dict(kind='counterexample', case=failing[0] if failing else None, detail=failing[1] if failing else None,
                      theorem='corr_C09 (unqueued re-entrant: class = Machine)')))
+    # 3b. condition callbacks returning non-bool values
+    nrows, badrows = raw_condition_values()
+    res.append(('raw_condition_values', not badrows, dict(runs=nrows, values=[repr(v) for v in RAW_VALUES], differing=len(badrows)),
+                dict(kind='counterexample', case=dict(sub='raw-condition-values'), detail=badrows[:5],
+                     theorem='corr_C09 (class = Machine when a condition returns a non-bool value)')))
     # 4. the boundary of the envelope stated in C09_hsm_flat (informational): an event name the machine does not know
     res.append(('unknown_event_boundary', True, unknown_event_probe(), {}))
     # 5. the known finding, minimal witness
